@@ -9,6 +9,7 @@ import GenjaxModel.Model.LoweringIO
 import GenjaxModel.Model.McmcIO
 import GenjaxModel.Model.SmcIO
 import GenjaxModel.Model.AdevIO
+import GenjaxModel.Model.VmapIO
 /-! Line-protocol driver: one S-expression per input line, one per output line. -/
 open Genjax
 
@@ -47,6 +48,9 @@ def dispatch (e : SExp) : SExp :=
   | some r => r
   | none =>
   match stepAdev e with
+  | some r => r
+  | none =>
+  match stepVmap e with
   | some r => r
   | none => .list [.atom "bad-op"]
 
